@@ -53,7 +53,31 @@ def enum_many(m, k, shard, nshards):
             i += 1
 
 
+def enum_skewed(tier, shard, nshards):
+    """Skewed operand sizes: a long array against every small subset of values near its ends and middle.
+
+    Size-dependent strategies (galloping / binary search for lopsided operands) are a classic
+    optimisation of sorted-set kernels; their defects live at the ends of the long operand."""
+    i = 0
+    lengths = [16, 17, 24, 33] if tier == "quick" else [16, 17, 23, 24, 25, 32, 33, 64, 65, 129]
+    for n in lengths:
+        for base in (0, TOP - 2 * n - 3):
+            long_ = [base + 1 + 2 * j for j in range(n)]            # odd offsets: members
+            lo, hi = long_[0], long_[-1]
+            window = sorted(set(
+                [v for v in range(lo - 1, lo + 5)] + [v for v in range(hi - 5, hi + 2)]
+                + [long_[n // 2] - 1, long_[n // 2], long_[n // 2] + 1]))
+            window = [v for v in window if 0 <= v <= TOP]
+            for k in (1, 2, 3):
+                for small in itertools.combinations(window, k):
+                    for a, b in ((long_, list(small)), (list(small), long_)):
+                        if i % nshards == shard:
+                            yield {"op": "pair", "a": a, "b": b, "u": "skew%d" % n}
+                        i += 1
+
+
 PATTERNS = [
+    "skewed", "skewed",
     "codes", "disjoint_left", "disjoint_right", "touching", "nested", "interleaved",
     "identical", "a_empty", "b_empty", "both_empty",
 ]
@@ -86,6 +110,19 @@ def _split(pool, pattern, codes, k1, k2):
     i = k1 % (n + 1)
     j = k2 % (n + 1)
     i, j = min(i, j), max(i, j)
+    if pattern == "skewed":
+        # a long operand against a few values taken at / next to its ends (and a few anywhere)
+        long_ = pool
+        picks = []
+        spots = [0, 1, 2, n - 3, n - 2, n - 1]
+        for t, c in enumerate(codes[:8]):
+            if t == 0 or (k1 >> t) & 1:
+                idx = spots[(k2 + t) % 6] if (k2 >> t) & 1 else (k1 * (t + 3) + k2) % n
+                idx = max(0, min(n - 1, idx))
+                v = long_[idx] + (c - 1 if (k1 + t) % 3 == 0 else 0)
+                if 0 <= v <= TOP:
+                    picks.append(v)
+        return long_, sorted(set(picks))
     if pattern == "codes":
         a = [v for v, c in zip(pool, codes) if c in (0, 2)]
         b = [v for v, c in zip(pool, codes) if c in (1, 2)]
